@@ -139,7 +139,7 @@ def run(ctx: core.Run):
     for sub in ("descriptors", "layers-minimal", "effects"):
         fs = sorted((FIX / sub).glob("*.ps[db]"), key=lambda p: p.stat().st_size)
         pool += fs[: (1 if quick else 6)]
-    ops = ["lowlevel", "structure", "open_save", "describe", "composite", "edit_save"]
+    ops = ["lowlevel", "structure", "open_save", "describe", "preview", "composite", "edit_save", "struct_save"]
     steps = [(op, str(p)) for p in pool for op in ops]
     # unusual documents: a fixture with one tagged-block payload emptied (most are rejected by the reader; what
     # matters is that reading them leaves no trace for the documents read afterwards)
@@ -149,7 +149,14 @@ def run(ctx: core.Run):
     variants = _emptied_variants(pool[: (3 if quick else 10)], scratch, rng, 6 if quick else 40)
     steps += [("structure", str(v)) for v in variants]
     ctx.extra["emptied_payload_variants"] = len(variants)
-    steps += [("build", "4"), ("build", "7")]
+    steps += [("build", "4"), ("build", "7"), ("build", "7:16"), ("build", "4:32"), ("build", "48"), ("build", "48:16")]
+    # documents that embed patterns (several Photoshop presets share their ids across files)
+    pat_files = _pattern_fixtures(limit=(4 if quick else 16))
+    for f in pat_files:
+        if f not in pool:
+            steps += [(op, str(f)) for op in ("composite", "structure")]
+        steps.append(("pattern_edit_composite", str(f)))
+    ctx.extra["pattern_fixtures"] = [p.name for p in pat_files]
     # descriptor-level steps aimed at the one place where history used to matter
     unknown = b"alis"
     steps += [
@@ -224,6 +231,36 @@ def run(ctx: core.Run):
     }
     if ctx.tier == "thorough":
         ctx.recheck(["PsdVerif.Props.C20"])
+
+
+def _pattern_fixtures(limit):
+    """Small fixtures that embed patterns, preferring pattern ids that occur in more than one file."""
+    from psd_tools.constants import Tag
+    from psd_tools.psd import PSD
+    by_id, files = {}, {}
+    for f in sorted(FIX.rglob("*.psd"), key=lambda p: p.stat().st_size):
+        if f.stat().st_size > 600_000:
+            continue
+        try:
+            with open(f, "rb") as fp:
+                psd = PSD.read(fp)
+            tb = psd.layer_and_mask_information.tagged_blocks
+            ids = []
+            for key in (Tag.PATTERNS1, Tag.PATTERNS2, Tag.PATTERNS3):
+                for pat in ((tb.get_data(key) if tb else None) or []):
+                    ids.append(str(pat.pattern_id))
+            if ids:
+                files[f] = ids
+                for i in ids:
+                    by_id.setdefault(i, []).append(f)
+        except Exception:  # noqa
+            continue
+    shared = [f for i, fs in sorted(by_id.items()) if len(fs) > 1 for f in fs]
+    out = []
+    for f in shared + list(files):
+        if f not in out:
+            out.append(f)
+    return out[:limit]
 
 
 def _emptied_variants(files, scratch: Path, rng, limit):
